@@ -110,16 +110,43 @@ def updOf (j : Json) : R Upd := do
     minStep := ← optField j "step" valOf
     maxLen := ← optField j "maxLen" asNat
     vv := ← optField j "vv" intsOf
+    readable := ← optField j "readable" (fun x => match x with | .bool b => pure b | _ => throw "bool")
     other := (← optField j "other" (fun x => match x with | .bool b => pure b | _ => throw "bool")).getD false }
 
 def cfgOf (j : Json) : R Cfg := do
-  pure { alwaysNull := ← getBool j "alwaysNull", allowInvalid := ← getBool j "allowInvalid",
-         hasSetter := ← getBool j "hasSetter" }
+  pure { alwaysNull := ← getBool j "alwaysNull", allowInvalid := ← getBool j "allowInvalid" }
+
+def exnOfName (s : String) : Exn :=
+  match s with
+  | "ValueError" => .valueError
+  | "OverflowError" => .overflowError
+  | "TypeError" => .typeError
+  | _ => .other
+
+/-- what the setter callback does: "absent" | "returns" | {"raises": class} -/
+def cbOf (j : Json) : R Cb :=
+  match j with
+  | .str "absent" => pure .absent
+  | .str "returns" => pure .returns
+  | _ => match j.getObjVal? "raises" with
+    | .ok (.str c) => pure (.raises (exnOfName c))
+    | _ => throw "cb: expected absent | returns | {raises}"
+
+/-- what the getter callback does: "absent" | {"returns": value} | {"raises": class} -/
+def getterOf (j : Json) : R Getter :=
+  match j with
+  | .str "absent" => pure .absent
+  | _ => match j.getObjVal? "returns" with
+    | .ok v => do pure (.returns (← valOf v))
+    | .error _ => match j.getObjVal? "raises" with
+      | .ok (.str c) => pure (.raises (exnOfName c))
+      | _ => throw "getter: expected absent | {returns} | {raises}"
 
 def opOf (j : Json) : R Op := do
   match ← getStr j "op" with
   | "set" => pure (.set (← valOf (← getObj j "v")) (← getBool j "notify"))
-  | "client" => pure (.client (← valOf (← getObj j "v")))
+  | "client" => pure (.client (← valOf (← getObj j "v")) (← cbOf (← getObj j "cb")))
+  | "read" => pure (.read (← getterOf (← getObj j "g")) (← getBool j "hap"))
   | "override" =>
     let u ← updOf (← getObj j "u")
     let vv ← match ← optField j "vv" intsOf with
@@ -133,13 +160,6 @@ def opOf (j : Json) : R Op := do
       | none => pure []
     pure (.configure u vv (← valOf (← getObj j "v")))
   | o => throw s!"char: unknown op {o}"
-
-def exnOfName (s : String) : Exn :=
-  match s with
-  | "ValueError" => .valueError
-  | "OverflowError" => .overflowError
-  | "TypeError" => .typeError
-  | _ => .other
 
 def exnName : Exn → String
   | .valueError => "ValueError"
@@ -211,11 +231,30 @@ def jres (r : Res) : Json :=
     ("hap", match reported r.st with | some v => jval v | none => Json.str "absent"),
     ("out", Json.arr (r.out.map jevent).toArray)]
 
-def runAll (E : Ext) (cfg : Cfg) : St → List Op → List Json
+/-- a read additionally shows what it returned -/
+def jstep (E : Ext) (L : Variant) (cfg : Cfg) (st : St) (op : Op) (r : Res) : Json :=
+  match op with
+  | .read g h =>
+    (jres r).setObjVal! "ret" (match r.exn, readResult E L cfg st g h with
+      | some _, _ => Json.str "raised"
+      | none, some v => jval v
+      | none, none => Json.str "absent")
+  | _ => jres r
+
+def runAll (E : Ext) (L : Variant) (cfg : Cfg) : St → List Op → List Json
   | _, [] => []
   | st, op :: ops =>
-    let r := step E repaired cfg st op
-    jres r :: runAll E cfg r.st ops
+    let r := step E L cfg st op
+    jstep E L cfg st op r :: runAll E L cfg r.st ops
+
+/-- which proved variant of the code the script is run against: `repaired` (HEAD, default) or
+    `strict` (HEAD + the candidate repair of `get_value`) -/
+def variantOf (j : Json) : R Variant :=
+  match j.getObjVal? "variant" with
+  | .ok (.str "strict") => pure strict
+  | .ok (.str "repaired") => pure repaired
+  | .ok _ => throw "variant: expected repaired | strict"
+  | .error _ => pure repaired
 
 def handle (j : Json) : R Json := do
   match ← getStr j "op" with
@@ -224,13 +263,14 @@ def handle (j : Json) : R Json := do
     let cfg ← cfgOf (← getObj j "cfg")
     let ops ← (← getArr j "ops").toList.mapM opOf
     let E := extOf (← srOf (← getArr j "sr")) (← frOf (← getArr j "fr"))
+    let L ← variantOf j
     match init E cfg p with
     | .error e => pure (Json.mkObj [("init", Json.mkObj [("err", Json.str (exnName e))]), ("steps", Json.arr #[])])
     | .ok st =>
       pure (Json.mkObj [
         ("init", Json.mkObj [("ok", jval st.value), ("props", jprops st.props),
                              ("hap", match reported st with | some v => jval v | none => Json.str "absent")]),
-        ("steps", Json.arr (runAll E cfg st ops).toArray)])
+        ("steps", Json.arr (runAll E L cfg st ops).toArray)])
   | "consistent" =>
     -- the model's notion of a consistent property set (cross-checked against the harness's)
     let p ← propsOf (← getObj j "props")
@@ -240,7 +280,8 @@ def handle (j : Json) : R Json := do
     let p ← propsOf (← getObj j "props")
     let cfg ← cfgOf (← getObj j "cfg")
     let v ← valOf (← getObj j "v")
-    pure (Json.mkObj [("consistent", Json.bool (consistent p)), ("conf", Json.bool (conf cfg p v))])
+    pure (Json.mkObj [("consistent", Json.bool (consistent p)), ("conf", Json.bool (conf cfg p v)),
+                      ("strict", Json.bool (confStrict cfg p v)), ("base", Json.bool (confB cfg p v))])
   | o => throw s!"char: unknown op {o}"
 
 end Hap.Drv.Char
